@@ -271,6 +271,18 @@ class Ctx:
         cache.write_text(json.dumps({"key": key, "out": res}))
         return res
 
+    def coqchk(self, target, timeout=1500):
+        """independent re-check of the compiled cone with coqchk -o (thorough tier); returns the summary text"""
+        with Lock("coq"):
+            rc, out, err = sh(["timeout", str(timeout), "coqchk", "-silent", "-o", "-Q", "theories", "CssV", "-Q", "props", "CssP",
+                               module_of(target)], cwd=COQ)
+        txt = (out + err)
+        i = txt.find("CONTEXT SUMMARY")
+        summary = " ".join(txt[i:].split()) if i >= 0 else txt[-1500:]
+        if rc != 0:
+            self.broken("proof", "coqchk " + target, txt[-1500:])
+        return summary
+
     # ---------------------------------------------------------------- extraction
     def ocaml_build(self, name):
         """coq/extract/<name>.v must `Extraction "<name>_model.ml" ...` (relative: it is compiled with
